@@ -229,41 +229,40 @@ func RPMFile(info Info, data []byte) (Info, error) {
 
 	if len(r.Headers) > 0 {
 		sigIdx := r.Headers[0].Indexes
-		if len(sigIdx) > 0 && sigIdx[0].Tag == rpm.RPMTAG_HEADERSIGNATURES {
-			if md5Digest := rpmBytesByTag(sigIdx, rpm.RPMSIGTAG_MD5); len(md5Digest) > 0 {
-				info.Attributes = append(info.Attributes, Attribute{names.MD5, hex.EncodeToString(md5Digest)})
-			}
-			if sha1Digest := rpmStringByTag(sigIdx, rpm.RPMSIGTAG_SHA1); len(sha1Digest) > 0 {
-				info.Attributes = append(info.Attributes, Attribute{names.SHA1, sha1Digest})
-			}
-			if sha256Digest := rpmStringByTag(sigIdx, 273); len(sha256Digest) > 0 {
-				info.Attributes = append(info.Attributes, Attribute{names.SHA256, sha256Digest})
-			}
+		// the header after the lead is the signature header, with or without the region tag in front (rpm 3.x wrote none)
+		if md5Digest := rpmBytesByTag(sigIdx, rpm.RPMSIGTAG_MD5); len(md5Digest) > 0 {
+			info.Attributes = append(info.Attributes, Attribute{names.MD5, hex.EncodeToString(md5Digest)})
+		}
+		if sha1Digest := rpmStringByTag(sigIdx, rpm.RPMSIGTAG_SHA1); len(sha1Digest) > 0 {
+			info.Attributes = append(info.Attributes, Attribute{names.SHA1, sha1Digest})
+		}
+		if sha256Digest := rpmStringByTag(sigIdx, 273); len(sha256Digest) > 0 {
+			info.Attributes = append(info.Attributes, Attribute{names.SHA256, sha256Digest})
+		}
 
-			foundSig := false
-			for _, t := range []int{rpm.RPMSIGTAG_DSA, rpm.RPMSIGTAG_RSA} {
-				if sig := rpmBytesByTag(sigIdx, t); len(sig) > 0 {
-					foundSig = true
-					info.Children = append(info.Children, Info{
-						Description: "Signature",
-						Attributes:  rpmSignatureAttributes(sig),
-					})
-				}
+		foundSig := false
+		for _, t := range []int{rpm.RPMSIGTAG_DSA, rpm.RPMSIGTAG_RSA} {
+			if sig := rpmBytesByTag(sigIdx, t); len(sig) > 0 {
+				foundSig = true
+				info.Children = append(info.Children, Info{
+					Description: "Signature",
+					Attributes:  rpmSignatureAttributes(sig),
+				})
 			}
+		}
 
-			for _, t := range []int{rpm.RPMSIGTAG_GPG, rpm.RPMSIGTAG_PGP} {
-				if sig := rpmBytesByTag(sigIdx, t); len(sig) > 0 {
-					foundSig = true
-					info.Children = append(info.Children, Info{
-						Description: "Legacy signature (RPM v3)",
-						Attributes:  rpmSignatureAttributes(sig),
-					})
-				}
+		for _, t := range []int{rpm.RPMSIGTAG_GPG, rpm.RPMSIGTAG_PGP} {
+			if sig := rpmBytesByTag(sigIdx, t); len(sig) > 0 {
+				foundSig = true
+				info.Children = append(info.Children, Info{
+					Description: "Legacy signature (RPM v3)",
+					Attributes:  rpmSignatureAttributes(sig),
+				})
 			}
+		}
 
-			if !foundSig {
-				info.Attributes = append(info.Attributes, Attribute{"Signature", "none"})
-			}
+		if !foundSig {
+			info.Attributes = append(info.Attributes, Attribute{"Signature", "none"})
 		}
 	}
 	return info, nil
